@@ -438,14 +438,18 @@ comment = (
     single_quote + SkipTo(LineEnd() | StringEnd())
 ).suppress().set_name('comment')
 
-quoted_string = Regex(r'"[^"]*"')
-unquoted_string = Regex(r'[^"\n:]+')
-unclosed_quoted_string = Regex(r'"[^"\n]+') + FollowedBy(LineEnd())
-data_clause = quoted_string | unquoted_string
+# The text of a DATA statement is taken verbatim and split into items by
+# parse_data.  It extends to the end of the line or to the first colon
+# that is not inside a quoted item.  A quote only opens a quoted item at
+# the start of an item; elsewhere it is an ordinary character.
+_data_quoted_item = r'"[^"\n]*(?:"[^,:\n]*)?'
+_data_unquoted_item = r'[^,:\n"][^,:\n]*'
+_data_item = f'(?:{_data_quoted_item}|{_data_unquoted_item})'
+data_text = Regex(
+    f'[ \\t]*{_data_item}?(?:,[ \\t]*{_data_item}?)*')
 data_stmt = (
     data_kw.suppress() -
-    (data_clause | comma)[...] +
-    unclosed_quoted_string[...]
+    data_text
 ).set_name('data_stmt')
 
 rem_stmt = (rem_kw + SkipTo(LineEnd())).suppress().set_name('rem_stmt')
@@ -1545,8 +1549,7 @@ def parse_screen_stmt(toks):
 
 @parse_action(data_stmt)
 def parse_data(s, loc, toks):
-    # Re-join data items and have them properly parsed again
-    s = ' '.join(str(t) for t in toks)
+    s = toks[0] if toks else ''
     ret = DataStmt(s)
 
     if ret.items is None:
